@@ -270,6 +270,12 @@ func satisfiesTildeConstraint(version, constraint *Version, precision int) bool 
 // normalizePartialVersion converts partial versions to full versions
 // e.g., "1.2" -> "1.2.0", "1" -> "1.0.0"
 func normalizePartialVersion(version string) string {
+	// Only the numeric core is padded: dots inside a pre-release or build suffix
+	// ("1.0.0-alpha.2") do not separate components
+	suffix := ""
+	if i := strings.IndexAny(version, "-+"); i >= 0 {
+		version, suffix = version[:i], version[i:]
+	}
 	parts := strings.Split(version, ".")
 
 	// Ensure we have exactly 3 parts
@@ -277,7 +283,7 @@ func normalizePartialVersion(version string) string {
 		parts = append(parts, "0")
 	}
 
-	return strings.Join(parts[:3], ".")
+	return strings.Join(parts[:3], ".") + suffix
 }
 
 // countVersionComponents counts the number of version components in a string
@@ -285,6 +291,9 @@ func normalizePartialVersion(version string) string {
 func countVersionComponents(version string) int {
 	if version == "" {
 		return 0
+	}
+	if i := strings.IndexAny(version, "-+"); i >= 0 {
+		version = version[:i]
 	}
 	return len(strings.Split(version, "."))
 }
